@@ -388,6 +388,69 @@ def t09_hhea(run, fx):
                  "writes has one long metric per glyph: hhea and hmtx disagree in the instance", "%s:%s" % (b.file, b.line))
 
 
+def t09_hhea2(run, fx):
+    """hhea.numberOfHMetrics agrees with the hmtx table that is written"""
+    rule = "T09-HHEA"
+    run.rule(rule, "variations::instance: hhea.numberOfHMetrics is the number of long metrics of the hmtx table that is written. Either the value stored "
+                   "into hhea.num_h_metrics is taken from that table (the length of its h_metrics), on every path to the serialisation of hhea; or it is "
+                   "maxp.num_glyphs and every hmtx that can reach the builder was built with one long metric per glyph (create_hmtx_table, "
+                   "htmx_from_phantom_points, apply_hvar) - a source hmtx passed through unchanged keeps the source's own numberOfHMetrics")
+    b = fx.body("variations::instance")
+    if b is None:
+        return run.anchor_missing(rule, "variations::instance")
+    prov = sym.Prov(b)
+    from_len, from_glyphs = [], []
+    for bi, blk in enumerate(b.blocks):
+        if not b.reachable(bi):
+            continue
+        for st in blk["s"]:
+            if st["k"] == "assign" and st["p"]["p"] and isinstance(st["p"]["p"][-1], dict) and st["p"]["p"][-1].get("n") == "num_h_metrics" and b.local_name(st["p"]["l"]) == "hhea":
+                import zipalign
+                chain, names = zipalign.chain_calls(b, st["rv"].get("op") or {"k": "copy", "p": st["rv"].get("p", {"l": 0, "p": []})})
+                src = prov.rvalue(st["rv"])
+                txt = sym.show(src, 0)
+                if any(nm.endswith("::len") for nm in names) and any(b.local_name(l) == "hmtx" for l in chain):
+                    from_len.append(bi)
+                elif any(x[0] == "field" and x[2] == "num_glyphs" for x in sym.walk(src)):
+                    from_glyphs.append(bi)
+    ser = [bi for bi, t in b.calls() if (t["callee"].get("path") or "").endswith("add_table") and "HheaTable" in " ".join(t["callee"].get("args") or [])]
+    if not ser:
+        return run.anchor_missing(rule, "add_table::<_, HheaTable> in variations::instance")
+    if from_len and all(any(b.dominates(w, s_) for w in from_len) for s_ in ser):
+        return run.ok(rule, "hhea.num_h_metrics is the length of the h_metrics of the hmtx that is written, on every path to the serialisation of hhea")
+    if from_glyphs and all(any(b.dominates(w, s_) for w in from_glyphs) for s_ in ser):
+        # then no source table may be passed through: every definition of the `hmtx` local is the result of a builder
+        builders = ("create_hmtx_table", "htmx_from_phantom_points", "apply_hvar")
+        hm = [l for l in range(b.arg_count + 1, len(b.locals)) if b.local_name(l) == "hmtx"]
+        passed = []
+        for l in hm:
+            tm = sym.strip(prov.local(l))
+            for x in sym.walk(tm):
+                if x[0] == "call" and str(x[1] or "").endswith(("ReadScope::<'a>::read_dep", "::read_dep")) and "HmtxTable" in str(x):
+                    passed.append(l)
+        # a tuple pattern `(glyph_data, hmtx) = match .. { .. => (.., hmtx) }` re-binds the source table: look for an aggregate that moves the
+        # source hmtx local into the result without a builder call in between
+        moved = False
+        import zipalign
+        for bi, blk in enumerate(b.blocks):
+            if not b.reachable(bi):
+                continue
+            for st in blk["s"]:
+                if st["k"] == "assign" and st["rv"]["k"] == "agg" and st["rv"].get("agg") == "tuple":
+                    for f in st["rv"]["fields"]:
+                        if f.get("k") not in ("move", "copy") or "HmtxTable" not in b.local_ty(f["p"]["l"]):
+                            continue
+                        chain, names = zipalign.chain_calls(b, f)
+                        if not any(nm.split("::")[-1] in builders for nm in names):
+                            moved = True
+        if moved:
+            return run.fail(rule, "hhea-num-h-metrics", "variations::instance sets hhea.num_h_metrics to maxp.num_glyphs although on one path the source hmtx is written unchanged: "
+                            "a source with numberOfHMetrics < numGlyphs yields an hmtx that is too short for the hhea next to it", "%s:%s" % (b.file, b.line))
+        return run.ok(rule, "hhea.num_h_metrics = maxp.num_glyphs and every hmtx that reaches the builder was built with one long metric per glyph")
+    run.fail(rule, "hhea-num-h-metrics", "variations::instance serialises hhea on a path where num_h_metrics was set neither from the hmtx that is written nor from maxp.num_glyphs",
+             "%s:%s" % (b.file, b.line))
+
+
 # ---- T09-ADD: a table handed to the builder is in the font -------------------------------------------------------------------------
 def _ok_blocks(b):
     out = []
@@ -475,7 +538,7 @@ def check(run, fx, tier, floors=True):
         t09_loca_woff2(run, fx)
     t09_stale(run, fx)
     if floors or fx.body("variations::instance") is not None:
-        t09_hhea(run, fx)
+        t09_hhea2(run, fx)
     if floors or fx.body("subset::create_hmtx_table") is not None:
         import rules_C07
         rules_C07.t07_hmtx(run, fx)
